@@ -578,8 +578,16 @@ fn drive_connection(
                 return false;
             }
             Ok(_) => continue,
-            Err(ref e) if would_block(e) => return false,
-            Err(ref e) if interrupted(e) => return drive_connection(conn, wbuf, msgs),
+            // Nothing of this buffer was written: park it again so that it is the next thing we send. Dropping it
+            // here would lose the unwritten remainder of a partially-written message and tear the frame.
+            Err(ref e) if would_block(e) => {
+                wbuf.replace(buf);
+                return false;
+            }
+            Err(ref e) if interrupted(e) => {
+                wbuf.replace(buf);
+                return drive_connection(conn, wbuf, msgs);
+            }
             Err(e) => {
                 error!(?conn, error = %e, "write failed");
                 return true;
